@@ -41,7 +41,7 @@ def miri_stage(c):
     # value 103 came out as 102.99999999999994 in one thorough run - an artifact of the interpreter, not of rrss)
     env["MIRIFLAGS"] = "-Zmiri-disable-isolation -Zmiri-ignore-leaks -Zmiri-deterministic-floats"
     tdir = f"{c['TARGET']}/{flavour}"
-    base = ["cargo", "+nightly", "miri", "run", "--offline", "--target-dir", tdir] + (["--release"] if release else [])
+    base = ["cargo", "+nightly", "miri", "run", "--offline", "--target-dir", tdir] + c["CARGO_REPO"] + (["--release"] if release else [])
     # build once (first run compiles), then shards in parallel
     t0 = time.time()
     warm = base + ["--", "run", "NONE"]
@@ -70,8 +70,8 @@ def miri_stage(c):
             if m:
                 # first in-repo frame of the report (not of the compiler warnings printed before it)
                 tail = err[m.start():]
-                frames = re.findall(r"(?:-->|at) (/repo/src/[^\s:]+:\d+)", tail)
-                frame = frames[0].replace("/repo/", "") if frames else "?"
+                frames = re.findall(r"(?:-->|at) %s/(src/[^\s:]+:\d+)" % re.escape(c["REPO"]), tail)
+                frame = frames[0] if frames else "?"
                 what = re.sub(r"<\d+>|alloc\d+|0x[0-9a-f]+|\d+", "#", m.group(1))[:90]
                 sig = f"miri:{flavour}:{what}@{frame}"
                 j = None
@@ -230,7 +230,7 @@ PROPS["C14"] = dict(
              "law.compound_assignment_plus", "law.build_then_knock_restores", "error_symmetric_pairs",
              "pairs_without_order"],
     assumptions=TRUST_BASE,
-    stages=dict(quick=[native("dbg")], thorough=[native("dbg"), native("rel")]),
+    stages=dict(quick=[native("dbg", scale=10)], thorough=[native("dbg"), native("rel")]),
 )
 
 PROPS["C03"] = dict(
@@ -587,6 +587,11 @@ def c20_cli(c):
         ([binary, "exec"], "missing_argument"),
         ([binary, "frobnicate", f"{d}/case_0.rock"], "unknown_subcommand"),
         ([binary, "--no-such-flag"], "unknown_flag"),
+        # a missing file among several arguments (whether or not several files are usage at all)
+        ([binary, "lint", f"{d}/definitely_missing_file.rock", f"{d}/case_0.rock"], "missing_file_first_of_two"),
+        ([binary, "lint", f"{d}/case_0.rock", f"{d}/definitely_missing_file.rock"], "missing_file_second_of_two"),
+        ([binary, "exec", f"{d}/definitely_missing_file.rock", f"{d}/case_0.rock"], "missing_file_first_of_two"),
+        ([binary, "parse", f"{d}/definitely_missing_file.rock", f"{d}/case_0.rock"], "missing_file_first_of_two"),
     ]
     for cmd, what in usage:
         rc, out, err, to = c["run_proc"](cmd, 60, stdin=b"")
@@ -676,7 +681,7 @@ PROPS["C16"] = dict(
     level_note="Failure positions are enumerated completely per tree for the leaf recorder.",
     rule=("cases = walks (tree x recorder x failure position); distinct_nontrivial = distinct program texts for which all 16 recorders and the statement recorder matched."),
     exhaustive="per tree: every failure position k of the leaf recorder",
-    require=["trees", "walks_matched", "events_compared", "failure_injection_runs", "set:node_types_observed:15",
+    require=["trees", "walks_matched", "events_compared", "failure_injection_runs", "partial_visitor_walks_matched", "marked_default_walks_matched", "combine_all_calls_matched", "set:node_types_observed:15",
              "set:statement_kinds:19", "set:event_types:9"],
     assumptions=TRUST_BASE,
     stages=dict(quick=[native("dbg", scale=15)], thorough=[native("dbg", scale=8), native("rel", scale=8)]),
@@ -798,8 +803,8 @@ def asan_stage(c):
                 merged.inconclusive["asan_resource"] = merged.inconclusive.get("asan_resource", 0) + 1
                 c["inconclusive"].append(f"asan shard {i} was lost to a resource limit")
                 continue
-            frames = re.findall(r"#\d+ 0x[0-9a-f]+ in [^\n]*?(/repo/src/[^\s:]+:\d+)", err)
-            frame = frames[0].replace("/repo/", "") if frames else "?"
+            frames = re.findall(r"#\d+ 0x[0-9a-f]+ in [^\n]*?%s/(src/[^\s:]+:\d+)" % re.escape(c["REPO"]), err)
+            frame = frames[0] if frames else "?"
             sig = f"asan:{m.group(1)}@{frame}"
             j = None
             try:
@@ -836,6 +841,9 @@ def fuzz_stage(c):
     import glob
     import subprocess
     st = c["stage"]
+    if c["CARGO_REPO"]:
+        c["inconclusive"].append("the fuzz project is bound to /repo; stage not run for another checkout")
+        return
     prop, tier, seed, merged = c["prop"], c["tier"], c["seed"], c["merged"]
     target = st["target"]
     vcheck = c["binaries"]["dbg"]
@@ -852,7 +860,7 @@ def fuzz_stage(c):
     lock = os.path.join(fdir, "Cargo.lock")
     if not os.path.exists(lock):
         import shutil
-        shutil.copy("/repo/Cargo.lock", lock)
+        shutil.copy(c["REPO"] + "/Cargo.lock", lock)
     b = subprocess.run(["cargo", "+nightly", "fuzz", "build", "--fuzz-dir", fdir, "--target-dir", tdir, target],
                        env=env, capture_output=True, text=True, cwd=fdir)
     if b.returncode != 0:
